@@ -217,6 +217,7 @@ def run(ctx: Ctx) -> None:
                        "via": "trace"},
                       {"formula": rec["s"], "verdict": v, "observed_get_terms": rec["r"], "observed_formula": rec["o"],
                        "observed_ast": rec["ast"]}, kind="trace")
+    ctx.require("trace leg: records judged by Trace_Wilkinson (not unmodelled)", len(recs) - skipped, len(recs) // 2)
     ctx.traces += len(recs) - skipped
     ctx.evaluations += len(recs)
     for r in recs:
